@@ -61,6 +61,7 @@ class Fault:
         self.count = 0
         self.fired = None    # event record of the injected fault
         self.exc = None
+        self.on_fire = None
 
 
 def realistic_fault(kind, paths):
@@ -168,6 +169,8 @@ class FsMonitor:
             if hit:
                 rec['injected'] = True
                 f.exc = f.make_exc(paths[0] if paths else None)
+                if f.on_fire is not None:
+                    f.on_fire()
                 raise f.exc
         cb = self.on_lib_event
         if cb is not None:
